@@ -808,6 +808,8 @@ def main():
     n_ho = 150 if quick else 4000
     n_sess = 40 if quick else 1000
     n_odd = 100 if quick else 2500
+    if os.environ.get('C06_ONLY_FULLSTACK'):       # investigation aid: only section (3)
+        n_snep = n_ho = n_sess = n_odd = 0
 
     # SNEP put / get, single operation, acceptable-length limits around the size
     for it in range(n_snep):
@@ -940,8 +942,16 @@ def main():
         for attempt in range(2):       # a disagreement must reproduce (real threads, real waits)
             try:
                 obs = fullstack_run(kind, ops, cfg, max_acc, answers)
-            except llcpair.Inconclusive:
+            except llcpair.Inconclusive as e:
                 ck.count('fullstack-inconclusive')
+                lst = ck.cov.setdefault('fullstack_inconclusive', [])
+                if len(lst) < 10:
+                    lst.append({'kind': kind, 'tag': tag, 'cfg': cfg, 'max_acc': max_acc, 'why': str(e), 'attempt': attempt,
+                                'sizes': [len(o[1]) for o in ops], 'answer_sizes': [len(a[1]) for a in answers if len(a) > 1 and isinstance(a[1], bytes)]})
+                if os.environ.get('C06_DEBUG'):
+                    sys.stderr.write('INCONCLUSIVE %s\n' % json.dumps(lst[-1] if lst else {}, default=str))
+                if attempt == 0:
+                    continue
                 return
             except Exception as e:  # noqa
                 obs = {'results': ['!' + type(e).__name__], 'log': [], 'send_miu': None, 'recv_miu': None, 'frames': 0}
@@ -989,6 +999,8 @@ def main():
         return rng.choice([128, 128, 129, 200, 248, 1024, 2175, rng.randrange(128, 2176)])
 
     n_fs = 120 if quick else 3000
+    if os.environ.get('C06_ONLY_FULLSTACK'):
+        n_fs = int(os.environ['C06_ONLY_FULLSTACK'])
     for it in range(n_fs):
         cfg = {'miu_i': pick_link_miu(), 'miu_t': pick_link_miu(), 'agf': rng.random() < 0.5, 'srv_side': rng.choice(['i', 't']),
                'srv_miu': rng.choice([128, 248, 1984, rng.randrange(128, 2176)]), 'srv_rw': rng.choice([1, 2, 15, rng.randrange(1, 16)]),
